@@ -314,7 +314,7 @@ def gen_fn_cases(chk):
             alg=alg, user=user, pw=pw, salt=salt, i=icount, cfirst=gs2 + fb, sfirst=sfirst, plus=plus, cbtype=cbtype,
             cbdata=cbdata, secured=secured, wf=True)
 
-    def rnd_scram(alg, icount, model, kind, ulen=None, plen=None, slen=None):
+    def rnd_scram(alg, icount, model, kind, ulen=None, plen=None, slen=None, ext=b""):
         user = rand_text(rng, rng.randrange(1, 20) if ulen is None else ulen)
         pw = rand_text(rng, rng.randrange(0, 30) if plen is None else plen)
         salt = rng.randbytes(rng.randrange(1, 33) if slen is None else slen)
@@ -323,7 +323,7 @@ def gen_fn_cases(chk):
         plus = rng.random() < 0.4
         cbtype = rng.choice([b"tls-unique", b"tls-exporter", b"tls-server-end-point"])
         cbdata = rng.randbytes(rng.choice([12, 32, 0, 1, 36]))
-        scram_case(alg, user, pw, salt, icount, cnonce, snonce, plus, cbtype, cbdata, plus or rng.random() < 0.5, model, kind)
+        scram_case(alg, user, pw, salt, icount, cnonce, snonce, plus, cbtype, cbdata, plus or rng.random() < 0.5, model, kind, ext)
 
     # RFC 5802 / RFC 7677 published examples (user / pencil)
     scram_case("1", b"user", b"pencil", base64.b64decode("QSXCR+Q6sek8bf92"), 4096, b"fyko+d2lbbFgONRv9qkxdawL",
@@ -350,6 +350,11 @@ def gen_fn_cases(chk):
             rnd_scram(alg, rng.randrange(1, 6), rng.random() < ((0.5 if alg != "512" else 0.2) if not thorough else (0.12 if alg != "512" else 0.04)), "scram-random")
     # the model at a realistic iteration count, once
     rnd_scram("1", 300 if not thorough else 4096, True, "scram-iter-model-large")
+    # server-first messages carrying extension attributes after i= (RFC 5802: "extensions" are part of the message the
+    # proof is computed over, whatever the client makes of them)
+    for alg in ("1", "256", "512"):
+        for ext in (b",x=some-extension", b",a=1,b=2", b",x=", b",r2=abc", b",i2=1"):
+            rnd_scram(alg, rng.randrange(1, 4), alg == "1", "scram-extension", ext=ext)
 
     # ---- SCRAM, challenges outside the grammar / refusals
     def raw_scram(alg, cb, ch, fb, password, kind, model=True, **meta):
